@@ -183,3 +183,121 @@ Theorem C13_source_Metadata_is_the_model : forall (c : Metadata.md_config) (now 
   G_MetadataWithSLO c now h = PVal (res_some (Metadata.metadata_with_slo c now h)).
 Proof. intros c now u h. exact (conj (G_Metadata_is_model c now u) (G_MetadataWithSLO_is_model c now h)). Qed.
 Print Assumptions C13_source_Metadata_is_the_model.
+
+(* ---- the signing context and the enveloped-signing functions as translated from /repo's source on this run (GenSign.v) ----
+   Section variables of the translation, universally quantified here: pk_of (goxmldsig getPublicKeyAlgorithm of a crypto.Signer),
+   key_name (how Build.v names the keys of Keys.v), crypto_of (DigestValue / SignatureValue or the error of the signer),
+   sign_el (the signing step of the builders, as in GenBuild.v). *)
+From V Require Import GenPreludeSign GenSign P_GenSign.
+
+(* saml.go SigningContext, for every configuration and cache state: a cached context is returned untouched; otherwise the context
+   is Keys.signing_context's key choice (with its two panics: nil signer in an override, no key at all with a known method),
+   Build.set_signature_method's hash and the canonicaliser override, stored in sp.signingContext and returned.  Its key part is
+   Keys.signing_context_cached; on a fresh SP configured through the setters the whole context is Build.signing_context (the
+   model of C13_algorithm_table); only the cache field of the receiver changes. *)
+Theorem C13_source_SigningContext_is_the_model : forall pk_of key_name sp now,
+  G_SigningContext pk_of sp now = signing_context_model pk_of key_name sp /\
+  keys_view (G_SigningContext pk_of sp now)
+    = cached_view (Keys.signing_context_cached (option_map dc_keys (sc_cache sp)) (Build.b_sign_algorithm (sc_b sp)) (sc_keys sp)) /\
+  (sc_cache sp = None -> Keys.setters_wf (sc_keys sp) ->
+     build_view pk_of key_name (G_SigningContext pk_of sp now)
+     = outcome_view (Build.signing_context (sc_b sp) (abs_keycfg pk_of key_name (sc_keys sp)))) /\
+  (forall sp' r, G_SigningContext pk_of sp now = PVal (sp', r) ->
+     sc_b sp' = sc_b sp /\ sc_keys sp' = sc_keys sp /\ sc_cache sp' = r /\ r <> None /\
+     (forall d, sc_cache sp = Some d -> sp' = sp /\ r = Some d)).
+Proof. exact SigningContext_tie. Qed.
+Print Assumptions C13_source_SigningContext_is_the_model.
+
+(* build_request.go SignAuthnRequest, for every receiver, element and oracle behaviour: SigningContext(), then
+   Build.construct_signature on the returned context (the element is the one the canonicaliser left), then Build.sign_placement
+   (Child[0], Signature, Child[1:]) on the copy.  On a fresh SP configured through the setters this is Build.sign_element.  The
+   index panic of Child[0] / Child[1:] is explicit in the translation and unreachable when the element starts with an element
+   child (the builders create the Issuer first: C13_signature_after_issuer) and the context has a key. *)
+Theorem C13_source_SignAuthnRequest_is_the_model : forall pk_of key_name crypto_of sp now el,
+  G_SignAuthnRequest pk_of key_name crypto_of sp now el = sign_model pk_of key_name crypto_of sp el /\
+  (forall crypto, sc_cache sp = None -> Keys.setters_wf (sc_keys sp) -> (forall d, crypto_of d el = crypto) ->
+     result_view (G_SignAuthnRequest pk_of key_name crypto_of sp now el)
+     = outcome_res_view (Build.sign_element (sc_b sp) (abs_keycfg pk_of key_name (sc_keys sp)) el crypto)) /\
+  (forall c0 rest sp' d,
+     signing_context_model pk_of key_name sp = PVal (sp', Some d) -> dctx_pk pk_of (dc_keys d) <> None ->
+     kids_of el = c0 :: rest -> is_elem c0 = true ->
+     G_SignAuthnRequest pk_of key_name crypto_of sp now el <> PPanic).
+Proof. exact SignAuthnRequest_tie. Qed.
+Print Assumptions C13_source_SignAuthnRequest_is_the_model.
+
+Theorem C13_source_SignLogoutRequest_is_the_model : forall pk_of key_name crypto_of sp now el,
+  G_SignLogoutRequest pk_of key_name crypto_of sp now el = sign_model pk_of key_name crypto_of sp el /\
+  (forall crypto, sc_cache sp = None -> Keys.setters_wf (sc_keys sp) -> (forall d, crypto_of d el = crypto) ->
+     result_view (G_SignLogoutRequest pk_of key_name crypto_of sp now el)
+     = outcome_res_view (Build.sign_element (sc_b sp) (abs_keycfg pk_of key_name (sc_keys sp)) el crypto)) /\
+  (forall c0 rest sp' d,
+     signing_context_model pk_of key_name sp = PVal (sp', Some d) -> dctx_pk pk_of (dc_keys d) <> None ->
+     kids_of el = c0 :: rest -> is_elem c0 = true ->
+     G_SignLogoutRequest pk_of key_name crypto_of sp now el <> PPanic).
+Proof. exact SignLogoutRequest_tie. Qed.
+Print Assumptions C13_source_SignLogoutRequest_is_the_model.
+
+Theorem C13_source_SignLogoutResponse_is_the_model : forall pk_of key_name crypto_of sp now el,
+  G_SignLogoutResponse pk_of key_name crypto_of sp now el = sign_model pk_of key_name crypto_of sp el /\
+  (forall crypto, sc_cache sp = None -> Keys.setters_wf (sc_keys sp) -> (forall d, crypto_of d el = crypto) ->
+     result_view (G_SignLogoutResponse pk_of key_name crypto_of sp now el)
+     = outcome_res_view (Build.sign_element (sc_b sp) (abs_keycfg pk_of key_name (sc_keys sp)) el crypto)) /\
+  (forall c0 rest sp' d,
+     signing_context_model pk_of key_name sp = PVal (sp', Some d) -> dctx_pk pk_of (dc_keys d) <> None ->
+     kids_of el = c0 :: rest -> is_elem c0 = true ->
+     G_SignLogoutResponse pk_of key_name crypto_of sp now el <> PPanic).
+Proof. exact SignLogoutResponse_tie. Qed.
+Print Assumptions C13_source_SignLogoutResponse_is_the_model.
+
+(* the public wrappers: the translated builders with includeSig fixed (true / false); BuildAuthRequest is the serialisation of the
+   document BuildAuthRequestDocument returns *)
+Theorem C13_source_document_wrappers_are_the_model : forall (sign_el : node -> res node) sp now id name_id session_index status req_id,
+  G_BuildAuthRequestDocument sign_el sp now id
+    = PVal (built sign_el (Build.b_sign_authn_requests (sc_b sp)) (Build.build_authn_request (sc_b sp) id now)) /\
+  G_BuildAuthRequestDocumentNoSig sign_el sp now id = PVal (Ok (Some (Build.build_authn_request (sc_b sp) id now))) /\
+  G_BuildAuthRequest sign_el sp now id
+    = PVal (doc_string (built sign_el (Build.b_sign_authn_requests (sc_b sp)) (Build.build_authn_request (sc_b sp) id now))) /\
+  G_BuildLogoutRequestDocument sign_el sp now name_id session_index id
+    = PVal (built sign_el true (Build.build_logout_request (sc_b sp) id now name_id session_index)) /\
+  G_BuildLogoutRequestDocumentNoSig sign_el sp now name_id session_index id
+    = PVal (Ok (Some (Build.build_logout_request (sc_b sp) id now name_id session_index))) /\
+  G_BuildLogoutResponseDocument sign_el sp now status req_id id
+    = PVal (built sign_el true (Build.build_logout_response (sc_b sp) id now status req_id)) /\
+  G_BuildLogoutResponseDocumentNoSig sign_el sp now status req_id id
+    = PVal (Ok (Some (Build.build_logout_response (sc_b sp) id now status req_id))).
+Proof. exact document_wrappers_tie. Qed.
+Print Assumptions C13_source_document_wrappers_are_the_model.
+
+(* the loop closed: when the signing step handed to the translated builders IS the translated Sign* function run on this receiver
+   (fresh SP, keys set through the setters), the document returned is Build.message_doc — the model every theorem above is about —
+   and the call panics exactly when the model does *)
+Theorem C13_source_signed_documents_are_the_model : forall pk_of key_name crypto_of (sign_el : node -> res node) sp now id crypto,
+  sc_cache sp = None -> Keys.setters_wf (sc_keys sp) ->
+  (let el := Build.build_authn_request (sc_b sp) id now in
+   let step := G_SignAuthnRequest pk_of key_name crypto_of sp now el in
+   (forall d, crypto_of d el = crypto) ->
+   match Build.message_doc (sc_b sp) (abs_keycfg pk_of key_name (sc_keys sp)) MAuthn id now true crypto with
+   | OPanic _ => Build.b_sign_authn_requests (sc_b sp) = true /\ step = PPanic
+   | ORet r => (Build.b_sign_authn_requests (sc_b sp) = true -> step_of step = Some (sign_el el)) ->
+               G_BuildAuthRequestDocument sign_el sp now id = PVal (doc_of (ORet r))
+   end) /\
+  (forall name_id session_index,
+   let el := Build.build_logout_request (sc_b sp) id now name_id session_index in
+   let step := G_SignLogoutRequest pk_of key_name crypto_of sp now el in
+   (forall d, crypto_of d el = crypto) ->
+   match Build.message_doc (sc_b sp) (abs_keycfg pk_of key_name (sc_keys sp)) (MLogoutRequest name_id session_index) id now true crypto with
+   | OPanic _ => step = PPanic
+   | ORet r => step_of step = Some (sign_el el) ->
+               G_BuildLogoutRequestDocument sign_el sp now name_id session_index id = PVal (doc_of (ORet r))
+   end) /\
+  (forall status req_id,
+   let el := Build.build_logout_response (sc_b sp) id now status req_id in
+   let step := G_SignLogoutResponse pk_of key_name crypto_of sp now el in
+   (forall d, crypto_of d el = crypto) ->
+   match Build.message_doc (sc_b sp) (abs_keycfg pk_of key_name (sc_keys sp)) (MLogoutResponse status req_id) id now true crypto with
+   | OPanic _ => step = PPanic
+   | ORet r => step_of step = Some (sign_el el) ->
+               G_BuildLogoutResponseDocument sign_el sp now status req_id id = PVal (doc_of (ORet r))
+   end).
+Proof. exact signed_documents_tie. Qed.
+Print Assumptions C13_source_signed_documents_are_the_model.
